@@ -190,8 +190,12 @@ func init() {
 			return th.R.TB.Int(64, v)
 		},
 		// ---- uninterpreted functions ----
+		// RelInt is an arbitrary strict weak order: a ≺ b iff rank(a) < rank(b) for an uninterpreted
+		// rank function (every strict weak order on a finite carrier has such a representation, and
+		// every rank function induces one, so no axioms are needed).
 		V + "RelInt": func(th *Thread, _ *frame, _ token.Pos, _ *ssa.Function, a []Value) Value {
-			return th.R.TB.App("RelInt", SBool, term(a[0]), term(a[1]))
+			tb := th.R.TB
+			return tb.Bin(OSlt, tb.App("RankInt", SBV64, term(a[0])), tb.App("RankInt", SBV64, term(a[1])))
 		},
 		V + "FnInt": func(th *Thread, _ *frame, _ token.Pos, _ *ssa.Function, a []Value) Value {
 			return th.R.TB.App("FnInt", SBV64, term(a[0]))
@@ -205,32 +209,7 @@ func init() {
 		V + "Fn2Int": func(th *Thread, _ *frame, _ token.Pos, _ *ssa.Function, a []Value) Value {
 			return th.R.TB.App("Fn2Int", SBV64, term(a[0]), term(a[1]))
 		},
-		V + "AssumeSWO": func(th *Thread, _ *frame, _ token.Pos, _ *ssa.Function, a []Value) Value {
-			r := th.R
-			tb := r.TB
-			s := a[0].(SliceV)
-			var xs []*Term
-			for i := 0; i < s.Len; i++ {
-				xs = append(xs, r.sliceElem(s, i).(*Term))
-			}
-			r.carrier["RelInt"] = append(r.carrier["RelInt"], xs...)
-			rel := func(x, y *Term) *Term { return tb.App("RelInt", SBool, x, y) }
-			var cs []*Term
-			for _, x := range xs {
-				cs = append(cs, tb.Not(rel(x, x)))
-			}
-			for _, x := range xs {
-				for _, y := range xs {
-					for _, z := range xs {
-						// transitivity and negative transitivity
-						cs = append(cs, tb.Implies(tb.And(rel(x, y), rel(y, z)), rel(x, z)))
-						cs = append(cs, tb.Implies(tb.And(tb.Not(rel(x, y)), tb.Not(rel(y, z))), tb.Not(rel(x, z))))
-					}
-				}
-			}
-			r.Assume(tb.And(cs...))
-			return nil
-		},
+		V + "AssumeSWO": func(th *Thread, _ *frame, _ token.Pos, _ *ssa.Function, a []Value) Value { return nil },
 		// ---- control ----
 		V + "Try": func(th *Thread, caller *frame, pos token.Pos, _ *ssa.Function, a []Value) Value {
 			return th.R.TB.Bool(th.try(caller, pos, a[0]))
